@@ -11,7 +11,7 @@ from .. import machine as M
 from ..core import parallel_map, b64, hx, unhxs, LEAN, LineProc
 
 DRIVERS = ["drv_machine"]
-GENERATED = ["Handlers", "Markers", "PanicInventory", "Startup"]
+GENERATED = ["Handlers", "Markers", "PanicInventory", "Startup", "FeatureGather"]
 
 HOSTILE = ["@@ foo @@", "@@ -1 +99999999999999999999999 @@", "@@ -٣ +1 @@", "diff --git ", "--- \"", "+++ \"", "@@", "@@@", "@@ @@",
            "@@ -1,2 @@", "@@ -0,0 +0,0 @@", "@@ -18446744073709551615,1 +1 @@", "diff --git a b", "diff --git a/ b/", "diff --cc ",
@@ -400,6 +400,246 @@ def startup_sweep(ctx, rep):
                               dict(args=args, input_b64=b64(small)))
 
 
+# ---------------------------------------------------------------------------------------------------------------------
+# (2f) hostile-but-accepted *configurations*: feature graphs in a gitconfig. `[delta "a"] features = b` makes feature a
+#      enable feature b (src/options/set.rs gather_features_recursively); the graph of these edges is the user's to write and
+#      may contain self-loops and cycles. Every such file is a valid configuration (unknown / repeated / blank feature names
+#      are ignored by delta), so the oracle expects exit status 0 — not even a `fatal` refusal — no signal, no panic text and
+#      termination within the time limit, both on a tiny diff and for --show-config. The configuration reaches delta as
+#      `--config FILE`, as $HOME/.gitconfig, and the entry point of the graph is named by `[delta] features`, `--features` or
+#      DELTA_FEATURES. Proof side: C03.Components.feature_gathering_terminates / recursion_guarded_by_membership
+#      (Generated/FeatureGather.lean: where the membership guard of the recursion stands).
+
+TINY_DIFF = (b"diff --git a/src/x.rs b/src/x.rs\nindex 1111111..2222222 100644\n--- a/src/x.rs\n+++ b/src/x.rs\n@@ -1,3 +1,3 @@ fn top()\n"
+             b" fn unchanged() {}\n-fn removed_function() {}\n+fn added_function() {}\n fn tail_marker_line() {}\n")
+BUILTIN_FEATURES = ["line-numbers", "side-by-side", "navigate", "diff-so-fancy", "diff-highlight", "hyperlinks", "raw", "color-only"]
+CHAIN_DEPTHS_OK = [3, 40, 200]          # depths the unchanged delta is required to pass (see known_findings for the rest)
+CHAIN_DEPTHS_DEEP = [2000]
+
+
+def fg_text(main, sections):
+    """gitconfig text: main = value of `[delta] features` (None: no such key), sections = [(name, [children], {key: value})]"""
+    out = []
+    if main is not None:
+        out.append("[delta]\n    features = " + main + "\n")
+    for name, kids, extra in sections:
+        out.append('[delta "' + name + '"]\n')
+        if kids is not None:
+            out.append("    features = " + (kids if isinstance(kids, str) else " ".join(kids)) + "\n")
+        for k, v in (extra or {}).items():
+            out.append(f"    {k} = {v}\n")
+    return "".join(out)
+
+
+def fg_named_graphs(rng):
+    """(class, is_cyclic, root words, sections)"""
+    sty = {"file-style": "bold yellow"}
+    ln = {"line-numbers": "true"}
+    g = [
+        ("self-loop", True, "mine", [("mine", ["mine"], sty)]),
+        ("self-loop-among-others", True, "mine", [("mine", ["other", "mine", "other"], sty), ("other", None, ln)]),
+        ("two-cycle", True, "base", [("base", ["decorations"], ln), ("decorations", ["base"], sty)]),
+        ("two-cycle-both-roots", True, "a b", [("a", ["b"], ln), ("b", ["a"], sty)]),
+        ("three-cycle", True, "a", [("a", ["b"], None), ("b", ["c"], None), ("c", ["a"], sty)]),
+        ("cycle-below-top", True, "top", [("top", ["x"], None), ("x", ["y"], None), ("y", ["z", "side-by-side"], None), ("z", ["x"], sty)]),
+        ("cycle-below-top-deep", True, "t0", [(f"t{i}", [f"t{i + 1}"], None) for i in range(12)] + [("t12", ["t7"], sty)]),
+        ("cycle-through-builtin", True, "x", [("x", ["line-numbers"], sty), ("line-numbers", ["x"], None)]),
+        ("cycle-through-builtin-2", True, "side-by-side", [("side-by-side", ["y"], None), ("y", ["navigate", "side-by-side"], None),
+                                                             ("navigate", ["y"], None)]),
+        ("builtin-self-loop", True, "diff-so-fancy", [("diff-so-fancy", ["diff-so-fancy"], sty)]),
+        ("two-cycles-sharing-a-node", True, "a", [("a", ["b", "c"], None), ("b", ["a"], None), ("c", ["a"], sty)]),
+        ("complete-graph-4", True, "k0", [(f"k{i}", [f"k{j}" for j in range(4)], None) for i in range(4)]),
+        ("diamond", False, "a b", [("a", ["c"], None), ("b", ["c"], ln), ("c", None, sty)]),
+        ("diamond-deep", False, "r", [("r", ["a", "b"], None), ("a", ["c"], None), ("b", ["c"], None), ("c", ["d", "e"], None),
+                                      ("d", ["f"], None), ("e", ["f"], None), ("f", None, sty)]),
+        ("acyclic-chain", False, "base", [("base", ["decorations"], None), ("decorations", None, sty)]),
+        ("duplicated-names", False, "a a b a", [("a", ["b", "b", "b"], None), ("b", None, sty)]),
+        ("duplicated-names-cyclic", True, "a a", [("a", ["b", "a", "b"], None), ("b", ["a", "a"], sty)]),
+        ("empty-list", False, "", [("a", "", sty)]),
+        ("blank-list", False, "   ", [("a", "  \t ", sty)]),
+        ("blank-separated", False, "  a   b  ", [("a", "   b   ", None), ("b", None, sty)]),
+        ("blank-separated-cyclic", True, "  a  ", [("a", "  b  \t a ", None), ("b", "\ta\t", sty)]),
+        ("unknown-names", False, "nosuch a", [("a", ["nosuch", "neither"], sty)]),
+        # the same feature through different spellings: subsection names are case-sensitive for git, the key `features` is not
+        ("spelling-case", True, "Mine", [("Mine", ["mine"], None), ("mine", ["Mine", "MINE"], sty), ("MINE", ["Mine"], None)]),
+        ("spelling-key-case", True, "a", [("a", None, {"Features": "b"}), ("b", None, {"FEATURES": "a"})]),
+        ("spelling-quoted-value", True, "a", [("a", '"b"', None), ("b", '"a" "b"', sty)]),
+        ("spelling-plus-prefix", True, "a", [("a", "+b", None), ("+b", "a +b", None), ("b", "a", sty)]),
+        ("spelling-unicode", True, "é", [("é", ["é"], None), ("é", ["é"], sty)]),
+        ("spelling-dotted", True, "a.b", [("a.b", ["a.b", "c"], None), ("c", ["a.b"], sty)]),
+        ("features-key-repeated", True, "a", [("a", ["b"], {"features": "a"}), ("b", ["a"], {"features": "b"})]),
+    ]
+    return g
+
+
+def fg_chain(depth, close):
+    secs = [(f"n{i}", [f"n{i + 1}"], None) for i in range(depth)]
+    secs.append((f"n{depth}", ["n0"] if close else None, {"file-style": "bold yellow"}))
+    return secs
+
+
+def fg_random(rng):
+    k = rng.randint(2, 7)
+    names = [rng.choice(["a", "b", "c", "d", "e", "f", "g", "h"]) + str(i) for i in range(k)]
+    pool = names + rng.sample(BUILTIN_FEATURES, 2)
+    secs = []
+    for n in pool if rng.random() < 0.5 else names:
+        kids = [rng.choice(pool) for _ in range(rng.randint(0, 4))]
+        extra = {}
+        if rng.random() < 0.3:
+            extra[rng.choice(BUILTIN_FEATURES[:4])] = "true"
+        if rng.random() < 0.3:
+            extra["file-style"] = "bold yellow"
+        secs.append((n, kids, extra))
+    # cyclic? (depth-first search over the section graph)
+    adj = {n: [x for x in (kids or [])] for n, kids, _ in secs}
+    state = {}
+
+    def dfs(u):
+        state[u] = 1
+        for v in adj.get(u, []):
+            if state.get(v) == 1 or (state.get(v) is None and dfs(v)):
+                return True
+        state[u] = 2
+        return False
+    roots = [rng.choice(pool) for _ in range(rng.randint(1, 3))]
+    cyc = any(state.get(r) is None and dfs(r) for r in roots)
+    return ("random-cyclic" if cyc else "random-acyclic"), cyc, " ".join(roots), secs
+
+
+def fg_cases(ctx):
+    rng = ctx.rng
+    graphs = fg_named_graphs(rng)
+    for d in CHAIN_DEPTHS_OK:
+        graphs.append((f"chain-depth-{d}", False, "n0", fg_chain(d, False)))
+        graphs.append((f"chain-depth-{d}-closed", True, "n0", fg_chain(d, True)))
+    for d in CHAIN_DEPTHS_DEEP:
+        graphs.append((f"chain-depth-{d}", False, "n0", fg_chain(d, False)))
+    for w in (300, 3000):
+        graphs.append((f"wide-list-{w}", False, " ".join(f"w{i}" for i in range(w)), [("w0", [f"w{i}" for i in range(w)], {"file-style": "bold yellow"})]))
+        graphs.append((f"wide-list-{w}-cyclic", True, "w0", [("w0", [f"w{i}" for i in range(w)], None), (f"w{w - 1}", ["w0"], None)]))
+    for _ in range(ctx.n(24, 400)):
+        graphs.append(fg_random(rng))
+    cases = []
+    for cls, cyc, root, secs in graphs:
+        big = cls.startswith(("chain-depth-2000", "wide-list-3000"))
+        deliveries = ["config+main", "home+main", "config+cli", "config+env", "home+env-plus"]
+        if cls.startswith("random") or big:
+            deliveries = [rng.choice(deliveries)]
+        for dl in deliveries:
+            runs = ["diff", "show-config"] if not big else [rng.choice(["diff", "show-config"])]
+            for r in runs:
+                cases.append(dict(cls=cls, cyclic=cyc, root=root, delivery=dl, run=r,
+                                  gitconfig=fg_text(root if dl.endswith("+main") else None, secs)))
+    return cases
+
+
+def fg_materialise(c):
+    """write the configuration; returns (args, env, stdin)"""
+    import hashlib
+    from ..core import BUILD
+    h = hashlib.sha256(c["gitconfig"].encode()).hexdigest()[:16]
+    base = os.path.join(BUILD, "c03-gitconfig", h)
+    os.makedirs(os.path.join(base, "home"), exist_ok=True)
+    os.makedirs(os.path.join(base, "empty-home"), exist_ok=True)
+    where, entry = c["delivery"].split("+", 1)
+    args, env = [], {"RUST_BACKTRACE": "0"}
+    if where == "config":
+        path = os.path.join(base, "gitconfig")
+        env["HOME"] = os.path.join(base, "empty-home")
+        args += ["--config", path]
+    else:
+        path = os.path.join(base, "home", ".gitconfig")
+        env["HOME"] = os.path.join(base, "home")
+    if not os.path.exists(path):
+        import threading
+        tmp = path + f".{os.getpid()}.{threading.get_ident()}.tmp"
+        with open(tmp, "w") as f:
+            f.write(c["gitconfig"])
+        os.replace(tmp, path)
+    if entry == "cli":
+        args += ["--features", c["root"]]
+    elif entry == "env":
+        env["DELTA_FEATURES"] = c["root"]
+    elif entry == "env-plus":
+        env["DELTA_FEATURES"] = "+" + c["root"]
+    if c["run"] == "show-config":
+        return args + ["--show-config"], env, b""
+    return args, env, TINY_DIFF
+
+
+def fg_outcome(rc, err):
+    """(kind, detail): kind in ok | fatal | crash | hang"""
+    e = err.decode("utf-8", "replace")
+    if rc == "timeout":
+        return "hang", "timeout"
+    if isinstance(rc, int) and rc < 0:
+        import signal
+        try:
+            return "crash", signal.Signals(-rc).name
+        except ValueError:
+            return "crash", f"signal{-rc}"
+    if "overflowed its stack" in e or rc == 134:
+        return "crash", "SIGABRT"
+    if "panicked at" in e or rc == 101:
+        return "crash", "panic"
+    if "should not be possible" in e:
+        return "crash", "unreachable"
+    if rc == 0:
+        return "ok", ""
+    if rc == 2:
+        return "fatal", e.strip()[:60]
+    return "crash", f"exit{rc}"
+
+
+def fg_signature(c, kind, detail):
+    group = "feature-cycle" if c["cyclic"] else "feature-graph"
+    return f"{kind}:gitconfig:{group}:{c['cls']}:{detail}" if kind != "fatal" else f"refused:gitconfig:{group}:{c['cls']}"
+
+
+FG_TIMEOUT = 60
+
+
+def feature_graph_sweep(ctx, rep):
+    cases = fg_cases(ctx)
+
+    def one(c):
+        args, env, data = fg_materialise(c)
+        return ctx.run_delta(args, data, timeout=FG_TIMEOUT, env=env)
+    for c, (rc, out, err) in zip(cases, parallel_map(one, cases, workers=4)):
+        kind, detail = fg_outcome(rc, err)
+        rep.case(key=("gitconfig", c["cls"], c["delivery"], c["run"], c["gitconfig"]), nontrivial=True,
+                 sample=dict(level="gitconfig-feature-graph", cls=c["cls"], delivery=c["delivery"], run=c["run"], outcome=kind,
+                             gitconfig_head=c["gitconfig"][:160]))
+        rep.count("gitconfig:" + ("cyclic" if c["cyclic"] else "acyclic") + ":" + kind)
+        rep.count("gitconfig:delivery:" + c["delivery"])
+        if kind == "ok" and c["run"] == "diff" and b"added_function" not in out:
+            kind, detail = "crash", "no-output"          # exit 0 without having rendered the diff is not "works" either
+        if kind != "ok":
+            # every generated configuration is valid: a clean `fatal` refusal (exit 2) is reported too, under its own signature
+            sig = fg_signature(c, kind, detail)
+            rep.count("fail:" + sig)
+            small = dict(c, gitconfig=c["gitconfig"] if len(c["gitconfig"]) < 4000 else None)
+            if small["gitconfig"] is None:
+                small["regenerate"] = c["cls"]
+            rep.violation(sig, f"delta with the {c['cls']} feature graph ({c['delivery']}, {c['run']}) -> rc={rc} "
+                               f"stderr={err[-300:].decode('utf-8', 'replace')!r}", dict(feature_graph=small))
+
+
+def fg_regenerate(cls):
+    import re as _re
+    m = _re.fullmatch(r"chain-depth-(\d+)(-closed)?", cls)
+    if m:
+        return "n0", fg_chain(int(m.group(1)), bool(m.group(2)))
+    m = _re.fullmatch(r"wide-list-(\d+)(-cyclic)?", cls)
+    if m:
+        w = int(m.group(1))
+        if m.group(2):
+            return "w0", [("w0", [f"w{i}" for i in range(w)], None), (f"w{w - 1}", ["w0"], None)]
+        return " ".join(f"w{i}" for i in range(w)), [("w0", [f"w{i}" for i in range(w)], {"file-style": "bold yellow"})]
+    raise SystemExit("replay: cannot regenerate " + cls)
+
+
 def classify_failure(rc, err):
     e = err.decode("utf-8", "replace")
     if rc == "timeout":
@@ -520,11 +760,28 @@ def run(ctx, rep):
                           dict(args=args, input_b64=b64(data),
                                env=({"GIT_PREFIX": ["sub/", "sub/dir/", "a b/", "日本/"][len(data) % 4]} if "--relative-paths" in args else None)))
 
+    # (2f) feature graphs in a gitconfig (cycles, self-loops, deep chains, wide lists …)
+    feature_graph_sweep(ctx, rep)
+
 
 def replay(ctx, rep, obj):
     import base64
     c = obj["case"]
-    if "input_b64" in c:
+    if "feature_graph" in c:
+        fg = dict(c["feature_graph"])
+        if fg.get("gitconfig") is None:
+            root, secs = fg_regenerate(fg["regenerate"])
+            fg["gitconfig"] = fg_text(root if fg["delivery"].endswith("+main") else None, secs)
+        args, env, data = fg_materialise(fg)
+        rc, out, err = ctx.run_delta(args, data, timeout=FG_TIMEOUT, env=env)
+        print("delta", " ".join(args), {k: v for k, v in env.items() if k != "RUST_BACKTRACE"})
+        print("rc", rc, err[-400:].decode("utf-8", "replace"))
+        kind, detail = fg_outcome(rc, err)
+        if kind == "ok" and fg["run"] == "diff" and b"added_function" not in out:
+            kind, detail = "crash", "no-output"
+        if kind != "ok":
+            rep.violation(fg_signature(fg, kind, detail), "replayed", c)
+    elif "input_b64" in c:
         rc, out, err = ctx.run_delta(c["args"], base64.b64decode(c["input_b64"]), timeout=20, env=c.get("env"))
         print("rc", rc, err[-400:].decode("utf-8", "replace"))
         site = classify_failure(rc, err)
